@@ -187,12 +187,31 @@ def run(ck):
     for name, unit in FUNCS.items():
         per[api.base_name(name)] = analyse(ck, prog, name, unit, ck.report)
         ck.sample(dict(function=api.base_name(name), **per[api.base_name(name)]))
+    fx = selftest(ck)
     tot = sum(sum(v.values()) for v in per.values() if v)
     if tot < 30:
         ck.fail_broken("only %d obligations generated for the tokenizers (< 30)" % tot)
     cov = dict(explanation="strtok_s and wcstok_s: the tokenized string is the merge of dest and *ptr with capacity *dmaxp at entry. Per function: bounded loads/stores through the string "
                "cursor (B), consistency of every (*ptr, *dmaxp) pair handed back (T), only zeros stored into the string (Z), *ptr stored on every path that returns a token (P), the continuation steps only over an element nulled by this call (Q). "
                "Not decided: that the sequence of calls returns each maximal token exactly once.",
-               obligations=tot, discharged=tot - len({r["key"] for r in ck.reports}), functions=per, frontend=info,
+               obligations=tot, discharged=tot - len({r["key"] for r in ck.reports}), functions=per, fixtures=fx, frontend=info,
                summary="%d obligations over 2 tokenizers" % tot)
     return ck.finish(cov, ["the caller passes the *ptr / *dmaxp pair of the previous call unchanged", "only the bound clauses of C14 are decided"])
+
+
+def selftest(ck):
+    fdir = os.path.join(frontend.VERIF, "fixtures")
+    prog = Program(frontend.load_sources([os.path.join(fdir, "c14.c")]))
+    out = {}
+    class Sink:
+        def __init__(s): s.broken = []
+        def fail_broken(s, m): s.broken.append(m)
+    for name, want in (("fx14_good", False), ("fx14_skip_terminator", True)):
+        got = []
+        sk = Sink()
+        r = analyse(sk, prog, name, 1, lambda key, *a, **k: got.append(key))
+        q = [k for k in got if "continuation-skips-element" in k]
+        out[name] = dict(continuation_steps=r.get("continuation_steps"), rule_Q_reports=len(q), other=[k for k in got if k not in q][:3])
+        if sk.broken or not r.get("continuation_steps") or bool(q) != want:
+            ck.fail_broken("fixture c14.c:%s: rule Q %s (%s)" % (name, "did not fire" if want else "fired on conforming code", sk.broken or got))
+    return out
